@@ -49,6 +49,7 @@ func init() {
 		return []*vexplore.Scenario{
 			{Name: "maxrecvsize-takes-effect", Mode: "enum", Reset: kit.ResetGlobals, Body: maxRecv,
 				NeedCounters: []string{"limit-enforced", "in-limit-delivered", "limit-lifted", "unrelated-options-in-the-map"}},
+			{Name: "reconnect-time-set-on-a-running-dialer-takes-effect", Mode: "enum", Reset: kit.ResetGlobals, Body: c14.ReconnectTimeTakesEffect, NeedCounters: []string{"new-reconnect-time-in-effect-after-the-next-attach"}},
 			{Name: "fail-no-peers-switched-off-takes-effect", Mode: "sched", Bound: 1, Reset: kit.ResetGlobals, Body: c18.FailNoPeersOff},
 			{Name: "reconnect-options-changed-mid-run-hist-D3", Mode: "hist", Reset: kit.ResetGlobals, Cfg: vsched.Config{RandFree: true}, Body: func() { c14.HistTune(3, true, 1) }},
 			{Name: "best-effort-beside-a-send-deadline", Mode: "enum", Reset: kit.ResetGlobals, Body: c18.BestEffortModes,
